@@ -2,6 +2,7 @@ import Enc.Model.Json.EncString
 import Enc.Spec.Json.StdEnc
 import Enc.Lemmas.JsonEncString
 import Enc.Lemmas.JsonEncInt
+import Enc.Lemmas.JsonStrHelpers
 /-!
 # C01 — json.Marshal is byte-for-byte encoding/json.Marshal
 Property theorems only: the scalar layer (string escaping, integer formatting) is proved equal to an independent
@@ -43,5 +44,25 @@ theorem appendInt_eq (i : Int) (h : -2 ^ 63 ≤ i ∧ i < 2 ^ 64) : appendInt i 
 /-- non-vacuity: a string with HTML, a control byte, U+2028 and invalid UTF-8 -/
 example : encodeString [0x3c, 0x61, 0x01, 0xe2, 0x80, 0xa8, 0xff, 0x22] true
     = Spec.Json.appendString [0x3c, 0x61, 0x01, 0xe2, 0x80, 0xa8, 0xff, 0x22] true := encodeString_eq _ _
+
+/-- **Escape / AppendEscape** (json/json.go), modelled on Go slices with their destination (`Model/Json/StrHelpers.lean`:
+`Escape` allocates `make([]byte, 0, len(s)+10)` and always escapes HTML; the encoder appends piecewise and may reallocate
+under any growth policy): the bytes returned are exactly those encoding/json's `appendString` writes — after the
+destination's own bytes for AppendEscape (the destination-side statements are in Props/C15.lean). -/
+theorem escape_bytes (grow : Nat → Nat → Nat) (s : Bytes) :
+    (StrHelpers.escape grow s).data = Spec.Json.appendString s true :=
+  Lemmas.JsonStrHelpers.escape_eq grow s
+
+theorem appendEscape_bytes (grow : Nat → Nat → Nat) (b : Buf.Slice) (hb : b.Wf) (s : Bytes) (html : Bool) :
+    (StrHelpers.appendEscape grow b s html).data = b.data ++ Spec.Json.appendString s html :=
+  (Lemmas.JsonStrHelpers.appendEscape_eq grow b hb s html).1
+
+/-- the slice-level encoder writes what the buffer-free model `encodeString` writes (no SWAR lemma needed) -/
+theorem encodeStringS_eq (grow : Nat → Nat → Nat) (b : Buf.Slice) (hb : b.Wf) (s : Bytes) (html : Bool) :
+    (StrHelpers.encodeStringS grow b s html).data = b.data ++ encodeString s html :=
+  (Lemmas.JsonStrHelpers.encodeStringS_ext grow b hb s html).2
+
+example : (StrHelpers.escape (fun c n => max (2 * c) n) [0x3c, 0x61, 0x01, 0xe2, 0x80, 0xa8, 0xff, 0x22, 0x62, 0x63, 0x64]).data
+    = Spec.Json.appendString [0x3c, 0x61, 0x01, 0xe2, 0x80, 0xa8, 0xff, 0x22, 0x62, 0x63, 0x64] true := escape_bytes _ _
 
 end Enc.Props.C01
